@@ -1231,10 +1231,12 @@ class CCodeGenerator:
                 assert expr.b.typ.is_integer
                 esize = self.sizeof(expr.a.typ.element_type)
                 assert esize > 0
-                if esize != 1:
-                    esize = self.emit(ir.Const(esize, "esize", rhs.ty))
-                    rhs = self.builder.emit_mul(rhs, esize, rhs.ty)
+                # Scale in the pointer type (as gen_array_index does), the
+                # index type might be too small for index * esize.
                 rhs = self.builder.emit_cast(rhs, ir.ptr)
+                if esize != 1:
+                    esize = self.emit(ir.Const(esize, "esize", ir.ptr))
+                    rhs = self.builder.emit_mul(rhs, esize, ir.ptr)
 
             ir_typ = self.get_ir_type(expr.typ)
             value = self.builder.emit_binop(lhs, "+", rhs, ir_typ)
@@ -1256,11 +1258,11 @@ class CCodeGenerator:
                             ir.Binop(value, "/", esize, "rhs", ir_typ)
                         )
                 else:
-                    # pointer - numeric
-                    if esize != 1:
-                        esize = self.emit(ir.Const(esize, "esize", rhs.ty))
-                        rhs = self.builder.emit_mul(rhs, esize, rhs.ty)
+                    # pointer - numeric, scaled in the pointer type
                     rhs = self.builder.emit_cast(rhs, ir.ptr)
+                    if esize != 1:
+                        esize = self.emit(ir.Const(esize, "esize", ir.ptr))
+                        rhs = self.builder.emit_mul(rhs, esize, ir.ptr)
                     value = self.builder.emit_binop(lhs, "-", rhs, ir_typ)
             else:
                 # numeric - numeric
